@@ -141,6 +141,32 @@ theorem static_ordinals_agree (cfg : WCfg) (wops : List WOp)
     ew.slot.aad pfx fu = ew.used.aad pfx fu := by
   rw [writer_ordinals_agree cfg wops ew hw]; rfl
 
+/-- The bloom-filter and page-index modules in particular: whatever the history, each of them is
+    sealed with the row-group and column ordinals of the chunk it belongs to — the ordinals the
+    reader derives from the footer (`readBloomFilter`, `readColumnIndexFrom`, `readOffsetIndex`,
+    `ReadPageIndex`: file.go:460, 501, 967, 1005, 1042, 1051). -/
+theorem bloom_and_index_ordinals_agree (cfg : WCfg) (wops : List WOp) (pfx fu : Bytes) (rg col : Nat)
+    (ew : Ev) (hw : ew ∈ wclose cfg (wrun cfg wops))
+    (hk : ew.slot = .bloomHeader rg col ∨ ew.slot = .bloomBits rg col ∨ ew.slot = .columnIndex rg col ∨ ew.slot = .offsetIndex rg col) :
+    ew.used.ords = [rg, col] ∧ ew.used.aad pfx fu = ew.slot.aad pfx fu := by
+  have h := writer_ordinals_agree cfg wops ew hw
+  refine ⟨?_, by rw [h]; rfl⟩
+  rcases hk with hk | hk | hk | hk <;> rw [h, hk] <;> rfl
+
+/-- … and the page-index modules exist for every chunk of every committed row group: a column
+    index and an offset index sealed for `(i, j)` for all `i < number of row groups`, `j < ncols`. -/
+theorem page_index_modules_present (cfg : WCfg) (wops : List WOp) (i j : Nat)
+    (hi : i < (wflush cfg (wrun cfg wops) []).nrg) (hj : j < cfg.ncols) :
+    (⟨.columnIndex i j, ⟨.columnIndex, [i, j]⟩⟩ : Ev) ∈ wclose cfg (wrun cfg wops) ∧
+    (⟨.offsetIndex i j, ⟨.offsetIndex, [i, j]⟩⟩ : Ev) ∈ wclose cfg (wrun cfg wops) := by
+  simp only [wclose, List.mem_append, List.mem_flatMap, List.mem_map, List.mem_range, List.mem_singleton]
+  exact ⟨Or.inl (Or.inl (Or.inr ⟨i, hi, j, hj, rfl⟩)), Or.inl (Or.inr ⟨i, hi, j, hj, rfl⟩)⟩
+
+/-- non-vacuity: a bloom filter of row group 1 (after a Reset and an empty flush) -/
+example :
+    let cfg : WCfg := { ncols := 2, dict := fun _ => false, bloom := fun c => c == 1, plainFooter := false }
+    (⟨.bloomBits 1 1, ⟨.bloomBits, [1, 1]⟩⟩ : Ev) ∈ wclose cfg (wrun cfg [.page 0, .flush [], .reset, .page 0, .flush [1], .flush [], .page 1]) := by decide
+
 /-! ## With the ideal-AEAD hypothesis -/
 
 section aead
